@@ -19,7 +19,7 @@ def run(v, tier, seed, replay):
         cases = [rp["program"]]
         specs = [proggen.spec_of(cases[0])]
     else:
-        gens = [proggen.make(r.fork(), "tree", {"adapters": i % 4 == 0, "cycle_density": 1 + i % 3, "threads": 1 + i % 3, "ops": 20 + r.below(80)}) for i in range(n)]
+        gens = [proggen.make(r.fork(), "tree", {"adapters": i % 4 == 0, "cycle_density": 1 + i % 3, "threads": 1 + i % 3, "ops": 20 + r.below(80), "open_at_close": i % 2 == 1, "sleeps": i % 3 != 0}) for i in range(n)]
         cases = [g.lines for g in gens]
         specs = [g.s for g in gens]
     impl = seqrun.run_impl(cases, env={"FH_TIMES": "1"}) if ok else None
